@@ -237,6 +237,42 @@ class _Axes:
         self.z_axis, self.x_axis, self.position = np.asarray(z_axis, float), np.asarray(x_axis, float), np.asarray(position, float)
 
 
+COMPONENT_KINDS = ["signal", "signal", "empty", "function"]
+
+
+def pulse_fn(fp):
+    def g(t):
+        return fp["amp"] * np.exp(-((t - fp["tc"]) / fp["w"]) ** 2) * np.cos(2 * np.pi * fp["f0"] * (t - fp["tc"]))
+    return g
+
+
+def rand_component(rng, times):
+    """(component kind, value type or None, samples known independently of the object, function parameters)"""
+    ckind = rng.choice(COMPONENT_KINDS)
+    vt = rng.choice([1, 2, 1, 2, 1, 2, 0, 3, None])
+    n, dt = len(times), times[1] - times[0]
+    fp = None
+    if ckind == "empty":
+        vals = np.zeros(n)
+    elif ckind == "function":
+        fp = {"amp": 10 ** rng.uniform(-2, 2), "tc": float(times[0] + rng.uniform(0.2, 0.8) * n * dt), "w": float(rng.uniform(1, 3) * dt),
+              "f0": float(rng.uniform(0.05, 0.3) / dt)}
+        vals = pulse_fn(fp)(times)
+    else:
+        _, vals = rand_signal_data(rng, n)
+    return ckind, vt, np.asarray(vals, float), fp
+
+
+def make_component(ckind, times, vals, vt, fp):
+    import pyrex
+    ty = None if vt is None else pyrex.Signal.Type(vt)
+    if ckind == "empty":
+        return pyrex.EmptySignal(times, value_type=ty)
+    if ckind == "function":
+        return pyrex.FunctionSignal(times, pulse_fn(fp), value_type=ty)
+    return pyrex.Signal(times, vals, value_type=ty)
+
+
 def expected_gains(ant, p, direction, pol):
     """gains by vector geometry, independent of the code's coordinate conversion"""
     z = np.asarray(ant.z_axis, float)
@@ -327,6 +363,7 @@ let prsig = function None -> print_string "None\n"
                List.iter (Printf.printf "%h ") o.M.sg_times; print_newline ())
 let ident_filter _ _ s = s
 let const_filter vals _ _ s = {s with M.sg_values = vals}
+let table_filter tbl _ _ s = {s with M.sg_values = List.assoc s.M.sg_values tbl}
 let pr_opt_axes = function None -> print_string "None\n"
   | Some (((a,b),c), ((d,e),f)) -> Printf.printf "%h %h %h %h %h %h\n" a b c d e f
 let tagf = function M.RecvOk -> 0.0 | M.RecvValueError -> 1.0 | M.RecvDegenerate -> 2.0
@@ -540,28 +577,34 @@ def correspondence(ctx):
     recorded = json.load(open(PIN_FILE)) if os.path.exists(PIN_FILE) else {}
     changed = [k for k in pins if recorded.get(k) != pins[k]]
     ctx.extra["pins"] = {"current": pins, "changed_since_validation": changed}
-    for _ in range(ctx.n(25, 600) * (4 if changed else 1)):
-        p = mk.params("Antenna")
+    for _ in range(ctx.n(30, 700) * (4 if changed else 1)):
+        cls = rng.choice(["Antenna", "DipoleAntenna"])
+        p = mk.params(cls)
         ant = mk.build(p)
-        sysw = rng.random() < 0.3
+        sysw = rng.random() < 0.35
         obj = mk.wrap(ant) if sysw else ant
         n = rng.choice([2, 3, 5, 8])
         times, _ = rand_signal_data(rng, n)
         direction = None if rng.random() < 0.3 else rand_unit(rng)
         fr = rng.random() < 0.5
+        H = response_H(p)
+        coeffs = None if cls == "Antenna" else (np.real(ant.filter_coeffs[0]), np.real(ant.filter_coeffs[1]))
+        mname = {"Antenna": "antenna", "DipoleAntenna": "dipoleAntenna"}[cls]
+        af, eff = antenna_factor_expected(p)
         steps, code, expect = [], [], []
         code.append("let st = [] in")
         for si in range(rng.randint(1, 4)):
-            kind = rng.choice(["single", "single", "pair", "pair", "triple", "len_mismatch", "pol_not_list", "times_mismatch"])
+            kind = rng.choice(["single", "single", "pair", "pair", "pair", "triple", "triple", "len_mismatch", "pol_not_list", "times_mismatch"])
             ncomp = {"single": 1, "pair": 2, "triple": 3, "len_mismatch": 2, "pol_not_list": 2, "times_mismatch": 2}[kind]
             comps = []
             for ci in range(ncomp):
-                _, vals = rand_signal_data(rng, n)
-                vt = rng.choice([1, 2, 1, 2, 1, 2, 0, 3])
+                ckind, vt, vals, fp = rand_component(rng, times)
                 tt = times + (1e-9 if (kind == "times_mismatch" and ci == 1) else 0.0)
+                if ckind == "function" and kind == "times_mismatch" and ci == 1:
+                    vals = pulse_fn(fp)(tt)
                 pol = None if (kind == "single" and rng.random() < 0.3) else rand_unit(rng)
-                comps.append((tt, vals, vt, pol))
-            sigs = [make_signal(tt, vals, vt) for tt, vals, vt, _ in comps]
+                comps.append((tt, vals, vt, pol, ckind, fp))
+            sigs = [make_component(ck, tt, vals, vt, fp) for tt, vals, vt, _, ck, fp in comps]
             pols = [c[3] for c in comps]
             before = list(ant.signals)
             try:
@@ -578,20 +621,33 @@ def correspondence(ctx):
             except ValueError:
                 tag = 1.0
             same_prefix = len(ant.signals) >= len(before) and all(a is b for a, b in zip(ant.signals, before))
-            last = tuple(float(v) for v in ant.signals[-1].values) if (tag == 0.0 and ant.signals) else ()
+            stored = tag == 0.0 and len(ant.signals) > 0
+            with np.errstate(all="ignore"):
+                last = tuple(float(v) for v in ant.signals[-1].values) if stored else ()
+            # what the components' filtered values are (direct DFT), and the rounding allowance of this step
+            table, tol = [], 1e-300
+            for tt, vals, vt, pol, ck, fp in comps:
+                filtered, hmax = oracle_filter(tt, vals, H, fr) if cls != "Antenna" else (vals, 1.0)
+                table.append("(%s, %s)" % (olist(vals), olist(filtered)))
+                tol += filter_tol(vals, hmax, max(1.0, eff / af, eff)) if np.max(np.abs(vals)) > 0 else 0.0
             expect.append((float(len(ant.signals)), tag, last, same_prefix,
-                           float(ant.signals[-1].value_type.value) if (tag == 0.0 and ant.signals) else None))
+                           float(ant.signals[-1].value_type.value) if stored else None, tol))
             lens_ok = kind not in ("len_mismatch", "pol_not_list")
-            inputs = "[" + "; ".join("(%s, %s)" % (osig(tt, vals, vt), oopt(pol)) for tt, vals, vt, pol in comps) + "]"
-            code.append("let (st, r) = M.receive_model (fun s p -> M.antenna_apply_response ident_filter %s s %s p %s) st %s %s in" % (
-                oant(ant), oopt(direction), "true" if fr else "false", "true" if lens_ok else "false", inputs))
+            inputs = "[" + "; ".join("(%s, %s)" % (osig(tt, vals, 0 if vt is None else vt), oopt(pol)) for tt, vals, vt, pol, _, _ in comps) + "]"
+            filt = "ident_filter" if cls == "Antenna" else "(table_filter [%s])" % "; ".join(table)
+            code.append("let (st, r) = M.receive_model (fun s p -> M.%s_apply_response %s %s s %s p %s) st %s %s in" % (
+                mname, filt, oant(ant, coeffs), oopt(direction), "true" if fr else "false", "true" if lens_ok else "false", inputs))
             code.append("Printf.printf \"%h %h \" (float_of_int (List.length st)) (tagf r);")
             code.append("(if r = M.RecvOk then List.iter (Printf.printf \"%h \") (List.nth st (List.length st - 1)).M.sg_values);")
-            steps.append({"kind": kind, "components": [{"times": [float(t) for t in tt], "values": [float(v) for v in vals],
-                                                         "value_type": vt, "polarization": None if pol is None else [float(v) for v in pol]}
-                                                        for tt, vals, vt, pol in comps]})
+            steps.append({"kind": kind, "components": [{"times": [float(t) for t in tt], "values": [float(v) for v in vals], "value_type": vt,
+                                                         "polarization": None if pol is None else [float(v) for v in pol],
+                                                         "component_kind": ck, "function": fp}
+                                                        for tt, vals, vt, pol, ck, fp in comps]})
             kk = "%s:%s" % (kind, "ok" if tag == 0.0 else "rejected")
             dist["receive_steps"][kk] = dist["receive_steps"].get(kk, 0) + 1
+            for ci, c in enumerate(comps):
+                ck2 = "%s@%d:%s" % (c[4], ci, TYPE_NAMES[0 if c[2] is None else c[2]])
+                dist.setdefault("receive_components", {})[ck2] = dist.setdefault("receive_components", {}).get(ck2, 0) + 1
         code.append("print_newline ()")
         cases.append("(" + " ".join(code) + ")")
         checks.append(("receive", {"params": p, "direction": None if direction is None else [float(v) for v in direction],
@@ -663,7 +719,7 @@ def correspondence(ctx):
         elif kind == "receive":
             vals = list(r) if r not in ("None",) else []
             pos, ok = 0, True
-            for (ln, tag, last, same_prefix, vt_out) in exp:
+            for (ln, tag, last, same_prefix, vt_out, step_tol) in exp:
                 if pos + 2 > len(vals) or vals[pos] != ln or vals[pos + 1] != tag or not same_prefix:
                     ok = False
                     break
@@ -672,13 +728,13 @@ def correspondence(ctx):
                     mv = vals[pos:pos + meta["n"]]
                     pos += meta["n"]
                     scale = max([abs(v) for v in last] + [1e-300])
-                    if len(mv) != len(last) or any(abs(a - b) > 1e-12 * scale for a, b in zip(mv, last)) or vt_out != 1.0:
+                    if len(mv) != len(last) or any(abs(a - b) > 1e-12 * scale + step_tol for a, b in zip(mv, last)) or vt_out != 1.0:
                         ok = False
                         break
             if not ok or pos != len(vals):
                 disagree(kind, meta, r, exp)
                 ctx.fail("receive:%s" % json.dumps(meta, sort_keys=True, default=str)[:300],
-                         "Antenna.receive history disagrees with the model (signals stored / rejected / summed): impl=%r model=%r" % (exp, r),
+                         "%s.receive history disagrees with the model (receive = sum of apply_response of every component, refusal before any state change): impl=%r model=%r" % (meta["params"]["cls"], exp, r),
                          {"kind": "receive", **meta})
     for k in ("coords", "gain", "init", "freq", "orient", "apply", "history", "receive"):
         ctx.oblige("corr:%s(%d cases)" % (k, sum(1 for c in checks if c[0] == k)), bad.get(k, 0) == 0, "%d disagreements" % bad.get(k, 0))
@@ -972,6 +1028,104 @@ def probe_histories(ctx):
     ctx.extra["history_probe_counts"] = stats
 
 
+def probe_receive(ctx):
+    """receive() with polarized components of every Signal kind (plain, EmptySignal, FunctionSignal) and every value
+    type (incl. undefined / None / power) in every position: the antenna must store exactly one voltage signal equal
+    to the SUM of the components' responses (direct-DFT filter x geometric gains x efficiency / antenna factor for
+    fields), or -- when any component is neither field nor voltage -- raise ValueError and leave `signals` untouched,
+    whatever the order of the components."""
+    import pyrex
+    rng = ctx.rng
+    mk = Maker(rng)
+    stats = {"calls": 0, "stored": 0, "refused": 0, "by_first_component": {}, "permutations": 0}
+    for it in range(ctx.n(60, 1500)):
+        cls = rng.choice(["Antenna", "DipoleAntenna", "DipoleAntenna", "ProbeAntenna"])
+        p = mk.params(cls)
+        ant = mk.build(p)
+        obj = mk.wrap(ant) if rng.random() < 0.4 else ant
+        n = rng.choice([2, 4, 8, 16])
+        times, _ = rand_signal_data(rng, n)
+        direction = None if rng.random() < 0.2 else rand_unit(rng) * rng.choice([1.0, 3.0])
+        fr = rng.random() < 0.5
+        H = response_H(p)
+        af, eff = antenna_factor_expected(p)
+        ncomp = rng.choice([1, 2, 2, 3])
+        comps = []
+        for ci in range(ncomp):
+            ckind, vt, vals, fp = rand_component(rng, times)
+            if rng.random() < 0.6 and vt not in (1, 2):
+                vt = rng.choice([1, 2])                      # keep a good share of fully valid lists
+            comps.append({"component_kind": ckind, "value_type": vt, "values": [float(v) for v in vals], "function": fp,
+                          "polarization": [float(v) for v in rand_unit(rng) * rng.choice([1.0, 2.0])]})
+        orders = [list(range(ncomp))]
+        if ncomp > 1:
+            perm = list(range(ncomp))
+            rng.shuffle(perm)
+            if perm != orders[0]:
+                orders.append(perm)
+                stats["permutations"] += 1
+        results = []
+        for order in orders:
+            cs = [comps[i] for i in order]
+            rep = {"kind": "receive_components", "params": p, "through_system": obj is not ant, "times": [float(t) for t in times],
+                   "direction": None if direction is None else [float(v) for v in direction], "force_real": fr, "components": cs}
+            ctx.case(key=("receive_components", it, tuple(order)))
+            sigs = [make_component(c["component_kind"], times, np.asarray(c["values"]), c["value_type"], c["function"]) for c in cs]
+            pols = [c["polarization"] for c in cs]
+            before = list(ant.signals)
+            stats["calls"] += 1
+            fk = "%s:%s" % (cs[0]["component_kind"], TYPE_NAMES[0 if cs[0]["value_type"] is None else cs[0]["value_type"]])
+            stats["by_first_component"][fk] = stats["by_first_component"].get(fk, 0) + 1
+            raised = False
+            try:
+                with np.errstate(all="ignore"):
+                    if ncomp == 1 and rng.random() < 0.5:
+                        obj.receive(sigs[0], direction=direction, polarization=pols[0], force_real=fr)
+                    else:
+                        obj.receive(sigs, direction=direction, polarization=pols, force_real=fr)
+            except ValueError:
+                raised = True
+            valid = all(c["value_type"] in (1, 2) for c in cs)
+            untouched = len(ant.signals) == len(before) and all(a is b for a, b in zip(ant.signals, before))
+            if not valid:
+                stats["refused"] += 1
+                if not (raised and untouched):
+                    bad = [(c["component_kind"], TYPE_NAMES[0 if c["value_type"] is None else c["value_type"]]) for c in cs]
+                    ctx.fail("receive-refusal:%s:%s" % (cls, fk),
+                             "%s.receive with components %s (one is neither field nor voltage) %s%s" % (
+                                 cls, bad, "raised ValueError" if raised else "was accepted", "" if untouched else " and changed the stored signals"), rep)
+                continue
+            if raised or len(ant.signals) != len(before) + 1 or not all(a is b for a, b in zip(ant.signals, before)):
+                ctx.fail("receive-count:%s:%s" % (cls, fk), "%s.receive of valid components %s" % (cls, "raised ValueError" if raised else "did not append exactly one signal"), rep)
+                continue
+            stats["stored"] += 1
+            out = ant.signals[-1]
+            want, tol = np.zeros(n), 1e-300
+            for c in cs:
+                vals = np.asarray(c["values"])
+                fx, hmax = oracle_filter(times, vals, H, fr)
+                d, pg, dd, pp = expected_gains(ant, p, direction, c["polarization"])
+                k = eff / (af if c["value_type"] == 2 else 1.0)
+                want += fx * d * pg * k
+                sc = max(float(np.max(np.abs(fx))), float(np.max(np.abs(vals))))
+                tol += filter_tol(vals, hmax, d * pg * k) + (dd * abs(pg) + abs(d) * pp + 64 * EPS * abs(d * pg)) * abs(k) * sc + 1e-9 * float(np.max(np.abs(fx * d * pg * k)))
+            with np.errstate(all="ignore"):
+                got = np.asarray(out.values, float)
+            err = float(np.max(np.abs(got - want))) if len(got) == n else float("inf")
+            if not (err <= tol and out.value_type == pyrex.Signal.Type.voltage and np.array_equal(np.asarray(out.times, float), times)):
+                ctx.fail("receive-sum:%s:%s" % (cls, fk),
+                         "%s.receive stored a signal that is not the sum of its %d components' responses (first component: %s; max error %.3g > %.3g; type %s)" % (
+                             cls, len(cs), fk, err, tol, out.value_type), rep)
+            results.append(got)
+        if len(results) == 2:
+            sc = float(np.max(np.abs(results[0]))) + 1e-300
+            if not float(np.max(np.abs(results[0] - results[1]))) <= 64 * EPS * sc * len(comps) + 1e-300:
+                ctx.fail("receive-order:%s" % cls, "%s.receive: the stored sum depends on the order of the polarized components" % cls,
+                         {"kind": "receive_components", "params": p, "through_system": obj is not ant, "times": [float(t) for t in times],
+                          "direction": None if direction is None else [float(v) for v in direction], "force_real": fr, "components": comps})
+    ctx.extra["receive_probe_counts"] = stats
+
+
 # ---------------------------------------------------------------------------- entry points
 def run(ctx):
     ctx.rule = ("correspondence cases: (class, constructor parameters, orientation, point / signal / value type / direction / polarization / force_real), "
@@ -996,6 +1150,7 @@ def run(ctx):
         ctx.oblige("gen:Gen_antenna", False, "translation failed (fail-closed): %s" % e)
         probes(ctx)
         probe_histories(ctx)
+        probe_receive(ctx)
         return
     ok = ctx.coq_build("C08")
     if ok:
@@ -1005,6 +1160,7 @@ def run(ctx):
             ctx.oblige("corr:antenna", False, repr(e)[-1500:])
     probes(ctx)
     probe_histories(ctx)
+    probe_receive(ctx)
 
 
 def replay(ctx, obj):
@@ -1033,6 +1189,31 @@ def replay(ctx, obj):
                 print("value_type", vt, "-> ValueError:", e)
     if "point" in obj:
         print("coords:", ant._convert_to_antenna_coordinates(np.asarray(obj["point"])))
+    if obj.get("kind") == "receive_components":
+        times = np.asarray(obj["times"])
+        cs = obj["components"]
+        sigs = [make_component(c["component_kind"], times, np.asarray(c["values"]), c["value_type"], c["function"]) for c in cs]
+        before = len(ant.signals)
+        try:
+            o.receive(sigs, direction=obj.get("direction"), polarization=[c["polarization"] for c in cs], force_real=obj.get("force_real", False))
+            res = "accepted"
+        except ValueError as e:
+            res = "ValueError(%s)" % e
+        print("components:", [(c["component_kind"], c["value_type"]) for c in cs], "->", res, "; signals %d -> %d" % (before, len(ant.signals)))
+        H = response_H(p)
+        af, eff = antenna_factor_expected(p)
+        if all(c["value_type"] in (1, 2) for c in cs):
+            want = np.zeros(len(times))
+            for c in cs:
+                fx, _ = oracle_filter(times, np.asarray(c["values"]), H, obj.get("force_real", False))
+                d, pg, _, _ = expected_gains(ant, p, obj.get("direction"), c["polarization"])
+                want += fx * d * pg * eff / (af if c["value_type"] == 2 else 1.0)
+            print("expected stored signal (sum of the components' responses):", want[:6])
+            if len(ant.signals) > before:
+                print("stored signal:", np.asarray(ant.signals[-1].values)[:6], "type", ant.signals[-1].value_type)
+        else:
+            print("expected: ValueError and `signals` unchanged (a component is neither field nor voltage)")
+        return 1
     if "history" in obj:
         # construct / re-orient / respond history: replay it, show the response next to the oracle for the axes requested last
         sysobj = o if obj.get("through_system") else (mk.wrap(ant) if obj.get("mode") in ("wrapped", "setup") else None)
@@ -1065,7 +1246,8 @@ def replay(ctx, obj):
         # a receive history: replay it and show what the antenna stored / refused
         for i, st in enumerate(obj["steps"]):
             comps = st["components"]
-            sigs = [make_signal(np.asarray(c["times"]), np.asarray(c["values"]), c["value_type"]) for c in comps]
+            sigs = [make_component(c.get("component_kind", "signal"), np.asarray(c["times"]), np.asarray(c["values"]), c["value_type"], c.get("function"))
+                    for c in comps]
             pols = [c["polarization"] for c in comps]
             before = len(ant.signals)
             try:
@@ -1080,7 +1262,7 @@ def replay(ctx, obj):
                 res = "stored"
             except ValueError as e:
                 res = "ValueError(%s)" % e
-            print("step %d (%s, types %s): %s; signals %d -> %d%s" % (i, st["kind"], [c["value_type"] for c in comps], res, before, len(ant.signals),
+            print("step %d (%s, components %s): %s; signals %d -> %d%s" % (i, st["kind"], [(c.get("component_kind", "signal"), c["value_type"]) for c in comps], res, before, len(ant.signals),
                                                                        "" if res != "stored" else "; last values %s" % ant.signals[-1].values[:6]))
         print("model: a refused call leaves `signals` unchanged; an accepted call appends exactly one signal, the sum of the components' responses")
     return 1
